@@ -32,6 +32,7 @@ def scan(cfg, log):
     hrunning = set()
     sd_begin = {}           # scheduler -> instant of the beginning of its co_shutdown()
     begun = set()
+    finished_how = {}
     for e in log:
         k = e[0]
         if k == "tick":
@@ -52,6 +53,26 @@ def scan(cfg, log):
             now = e[1]
         elif k == "rootdone":
             break
+        elif k == "poll":
+            # C14: the public predicates of a job whose body was seen to return / raise / not finish
+            for v in e[1]:
+                x = v[0]
+                if x >= len(jobs) or jobs[x]["sched"]:
+                    continue
+                dn, res, exc = v[4], v[5], v[6]
+                if x in finished_how:
+                    how = finished_how[x]
+                    if not dn:
+                        bad("truth", what="the body of job %d %s, yet is_done() is False" % (x, "returned" if how == "ret" else "raised"),
+                            job=x, at=now)
+                    elif how == "ret" and (res != 1 or exc != 0):
+                        bad("truth", what="the body of job %d returned, but result()/raised_exception() do not give back "
+                            "its return value (codes %s, %s)" % (x, res, exc), job=x, at=now)
+                    elif how == "exc" and exc != 2 * x + 1:
+                        bad("truth", what="the body of job %d raised, but raised_exception() does not give back that "
+                            "exception (code %s)" % (x, exc), job=x, at=now)
+                elif dn:
+                    bad("truth", what="job %d is reported done although its body has not finished" % x, job=x, at=now)
         elif k in ("start", "begin"):
             x = e[1]
             if x == 0:
@@ -81,6 +102,7 @@ def scan(cfg, log):
         elif k == "finish":
             executing.discard(e[1])
             done.add(e[1])
+            finished_how[e[1]] = e[2]
         elif k in ("cend", "cabort"):
             executing.discard(e[1])
         elif k == "end":
@@ -106,6 +128,13 @@ def scan(cfg, log):
             sd_begin.setdefault(e[1], now)
             if e[1] in begun or e[1] == 0:
                 left_main.setdefault(e[1], now)
+        elif k == "sdend":
+            n = e[1]
+            sdto = jobs[n].get("sdto") if n < len(jobs) else None
+            t0 = sd_begin.get(n)
+            if t0 is not None and sdto is not None and now > t0 + sdto and e[2] != "none":
+                bad("shutdown_duration", what="the shutdown phase of scheduler %d lasted from %s to %s although its "
+                    "shutdown_timeout is %s" % (n, t0, now, sdto), scheduler=n, at=now)
         elif k == "hstart":
             x = e[1]
             hstarted[x] = hstarted.get(x, 0) + 1
